@@ -418,8 +418,11 @@ func (w *World) execOp(t *Task, idx int) {
 		fn, out := safeParse(o.Path.Text, cfgArgs(o.Cfg), o.Inject)
 		_ = fn
 		o.Got, o.Done = out, true // not judged: only what follows is
-		if strings.Contains(out, "InjectedPanic") {
+		if simrt.InjectionFired() {
 			t.fault("injected-panic-in-parse")
+			if o.Inject&1 != 0 {
+				t.fault("injected-panic-with-non-error-value")
+			}
 		}
 	case opCall:
 		var pf *ParsedFn
